@@ -1,14 +1,16 @@
 (* Properties/C07.v — statements only.  "Transactions are atomic and gas accounting stays within its bounds."
    The EVM is an oracle (clause_result); the only thing assumed about it is oracle_ok: a clause hands back at most the gas
-   it was given and a non-negative refund counter.  W = the rest of the world state, O = a clause output. *)
+   it was given and a non-negative refund counter.  A clause result also lists the ledger primitives the clause performed
+   (cr_ops) and the rest of the world after it (cr_world); the oracle sees the block context, the transaction, the clause index,
+   the gas handed in and the state.  W = the rest of the world state, O = a clause output. *)
 From Coq Require Import ZArith List Bool Lia.
-From Verif Require Import Ledger.Model Ledger.Proofs TxExec.Model TxExec.Proofs TxExec.ProofsBlock TxExec.ProofsAdopt.
+From Verif Require Import Ledger.Model Ledger.Proofs TxExec.Model TxExec.Proofs TxExec.ProofsEffects TxExec.ProofsBlock TxExec.ProofsAdopt.
 Import ListNotations.
 Open Scope Z_scope.
 
 Section C07.
   Variables W O : Type.
-  Variable clause_result : nat -> Z -> state W -> cres W O.
+  Variable clause_result : env -> txn -> nat -> Z -> state W -> cres W O.
   Variable write_credit : Z -> Z -> Z -> W -> W.
   Let exec := exec_tx W O clause_result write_credit.
 
@@ -41,12 +43,36 @@ Section C07.
                         snd st = write_credit to (t_origin t) credit' (snd st0)).
   Proof. intros OK. exact (tx_atomic_lemma W O clause_result write_credit OK e t ci st0 st rc). Qed.
 
-  (* 3. a transaction that cannot start changes nothing; the one failure after the debit (tx context) is undone by Adopt *)
-  Theorem not_started_unchanged e t ci st0 err st :
+  (* 2b. the success half and the flag.  effs = the results of executing every clause in order, each on the state and with the
+         gas left by the previous one (tx_effects).  The reverted flag is set EXACTLY when one of them failed; otherwise the
+         outputs are those of all the clauses, one per clause, and the state is the fold of all the clauses' effects over the
+         post-buy-gas state, followed by the returned gas and the reward *)
+  Theorem tx_all_applied e t ci st0 st rc :
+    exec e t ci st0 = Done W O st rc ->
+    let T := e_time e in let S := e_stop e in
+    let effs := tx_effects W O clause_result e t ci st0 in
+    let prepaid := t_gas t * r_price O rc in
+    let returned := (t_gas t - r_gas_used O rc) * r_price O rc in
+    let st1 : state W := (fst (energy_sub T S (fst st0) (r_payer O rc) prepaid), snd st0) in
+    length effs = length (t_clauses t) /\
+    r_reverted O rc = any_error W O effs /\
+    (r_reverted O rc = false ->
+       r_outputs O rc = outs_of W O effs /\ length (r_outputs O rc) = length (t_clauses t) /\
+       fst st = energy_add T S (energy_add T S (fst (state_after W O T S effs st1)) (r_payer O rc) returned) (e_benef e) (r_reward O rc) /\
+       (snd st = snd (state_after W O T S effs st1) \/
+        exists to credit', r_credit O rc = Some credit' /\ common_to (t_clauses t) = Some to /\
+                           snd st = write_credit to (t_origin t) credit' (snd (state_after W O T S effs st1)))).
+  Proof. exact (tx_outcome_lemma W O clause_result write_credit e t ci st0 st rc). Qed.
+
+  (* 3. REMARKS, true by construction of the model (every failing branch of exec_tx / adopt returns the state it was given; the
+        model has no journal): a transaction that cannot start changes nothing.  The content of this clause is carried by the
+        harness, which compares the real state root before and after every failed ExecuteTransaction (and after checkpoint /
+        RevertTo as the packer does), and by the block-level leaf explanation on real packed blocks. *)
+  Remark not_started_unchanged e t ci st0 err st :
     exec e t ci st0 = Failed W O err st -> err <> ErrContext -> st = st0.
   Proof. exact (not_started_unchanged_lemma W O clause_result write_credit e t ci st0 err st). Qed.
 
-  Theorem adopt_rejected_unchanged e used t ci st0 st :
+  Remark adopt_rejected_unchanged e used t ci st0 st :
     adopt W O clause_result write_credit e used t ci st0 = Rejected W O st -> st = st0.
   Proof. exact (adopt_rejected_unchanged_lemma W O clause_result write_credit e used t ci st0 st). Qed.
 
@@ -65,9 +91,9 @@ Section C07.
 
   (* 5. packer Flow.Adopt in full (pre-checks in the order of the code, execution, flow bookkeeping): a rejected tx — whatever
         the reason: blocked, bad features / chain tag, from the future, expired, no gas room, fee, known, dependency, failure to
-        start — leaves the state as it was; an adopted one is exactly an adoption of the gas/exec core, is not already known,
+        start — leaves the state as it was (remark, by construction as in 3); an adopted one is exactly an adoption of the gas/exec core, is not already known,
         lies in its block-ref window, and its dependency (if any) is a non-reverted earlier tx *)
-  Theorem adopt_full_rejected_unchanged e fe fs t ai ci st0 c st :
+  Remark adopt_full_rejected_unchanged e fe fs t ai ci st0 c st :
     adopt_full W O clause_result write_credit e fe fs t ai ci st0 = FRejected W O c st -> st = st0.
   Proof. exact (adopt_full_rejected W O clause_result write_credit e fe fs t ai ci st0 c st). Qed.
 
@@ -99,36 +125,74 @@ Section C07.
   Qed.
 End C07.
 
-(* non-vacuity: a concrete oracle satisfying oracle_ok; a 3-clause transaction whose 2nd clause fails after the 1st wrote *)
-Definition ex_oracle (i : nat) (g : Z) (st : state Z) : cres Z Z :=
-  mkCres Z Z (g / 3) 9000 (Nat.eqb i 1) (transfer 100 1000 (fst st) 1 2 5, snd st + 1) (Z.of_nat i).
+(* non-vacuity: concrete oracles satisfying oracle_ok; a 3-clause transaction whose 2nd clause fails after the 1st wrote; the same
+   transaction with all clauses succeeding; a block of three transactions *)
+Definition ex_oracle (_ : env) (_ : txn) (i : nat) (g : Z) (st : state Z) : cres Z Z :=
+  mkCres Z Z (g / 3) 9000 (Nat.eqb i 1) [OTransfer 1 2 5] (snd st + 1) (Z.of_nat i).
+Definition ex_oracle_fine (_ : env) (_ : txn) (i : nat) (g : Z) (st : state Z) : cres Z Z :=
+  mkCres Z Z (g / 3) 9000 false [OTransfer 1 2 5] (snd st + 1) (Z.of_nat i).
 Definition ex_wc (_ _ c w : Z) : Z := w + 1000 * c.
 Definition ex_env := mkEnv 100 1000 5 3 10000000 (Some 10000000000000) 1000000000000000 300000000000000000 77 10.
 Definition ex_tx := mkTx true 200000 [mkClause (Some 2) 3 4 5; mkClause (Some 2) 0 0 0; mkClause None 0 10 0]
                          0 20000000000000 500 1 true None true 0 0 0 false.
 Definition ex_led : ledger :=
-  mkL (fun a => if a =? 1 then mkAcc 1000 9000000000000000000 50 else empty_acc) 0 0 0.
+  mkL (fun a => if a =? 1 then mkAcc 1000 90000000000000000000 50 else empty_acc) 0 0 0.
 Definition ex_ci := mkCI 0 0 false false.
 
-Example ex_oracle_ok : oracle_ok Z Z ex_oracle.
+Example ex_oracle_ok : oracle_ok Z Z ex_oracle /\ oracle_ok Z Z ex_oracle_fine.
 Proof.
-  intros i g st Hg. cbn. pose proof (Z.div_mod g 3 ltac:(lia)). pose proof (Z.mod_pos_bound g 3 ltac:(lia)). lia.
+  split; intros e t i g st Hg; cbn; pose proof (Z.div_mod g 3 ltac:(lia)); pose proof (Z.mod_pos_bound g 3 ltac:(lia)); lia.
 Qed.
 
 Example ex_reverts : exists st rc,
   exec_tx Z Z ex_oracle ex_wc ex_env ex_tx ex_ci (ex_led, 0) = Done Z Z st rc /\
   r_reverted Z rc = true /\ r_outputs Z rc = [] /\ snd st = 0 /\
   r_gas_used Z rc = 175330 /\ intrinsic_gas (t_clauses ex_tx) = Some 85964 /\
-  r_clause_log Z rc = [(114036, 76024, 9000); (47012, 31342, 9000)].
+  r_clause_log Z rc = [(114036, 76024, 9000); (47012, 31342, 9000)] /\
+  any_error Z Z (tx_effects Z Z ex_oracle ex_env ex_tx ex_ci (ex_led, 0)) = true.
 Proof. eexists _, _. split; [vm_compute; reflexivity|]. vm_compute. repeat split; reflexivity. Qed.
 
-Example ex_not_started : exists err,
-  exec_tx Z Z ex_oracle ex_wc ex_env (mkTx true 200000 [] 0 5 1 1 true None true 0 0 0 false) ex_ci (ex_led, 0)
-  = Failed Z Z err (ex_led, 0) /\ err <> ErrContext.
-Proof. exists ErrPriceBelowBaseFee. split; [vm_compute; reflexivity|discriminate]. Qed.
+Example ex_all_applied : exists st rc,
+  exec_tx Z Z ex_oracle_fine ex_wc ex_env ex_tx ex_ci (ex_led, 0) = Done Z Z st rc /\
+  r_reverted Z rc = false /\ r_outputs Z rc = [0; 1; 2] /\ snd st = 3 /\ r_gas_used Z rc = 183554 /\
+  view 100 1000 (fst st) 2 = (15, 0) /\ view 100 1000 (fst st) 1 = (985, 88164459999908223000) /\
+  any_error Z Z (tx_effects Z Z ex_oracle_fine ex_env ex_tx ex_ci (ex_led, 0)) = false.
+Proof. eexists _, _. split; [vm_compute; reflexivity|]. vm_compute. repeat split; reflexivity. Qed.
+
+Example ex_not_started :
+  (exists err, exec_tx Z Z ex_oracle ex_wc ex_env (mkTx true 200000 [] 0 5 1 1 true None true 0 0 0 false) ex_ci (ex_led, 0)
+               = Failed Z Z err (ex_led, 0) /\ err = ErrPriceBelowBaseFee) /\
+  (exists err, exec_tx Z Z ex_oracle ex_wc ex_env (mkTx true 20000 [] 0 20000000000000 1 1 true None true 0 0 0 false) ex_ci (ex_led, 0)
+               = Failed Z Z err (ex_led, 0) /\ err = ErrGasBelowIntrinsic) /\
+  (exists err, exec_tx Z Z ex_oracle ex_wc ex_env (mkTx true 200000 [] 0 20000000000000 1 9 true None true 0 0 0 false) ex_ci (ex_led, 0)
+               = Failed Z Z err (ex_led, 0) /\ err = ErrInsufficientEnergy) /\
+  (exists err, exec_tx Z Z ex_oracle ex_wc ex_env (mkTx true 200000 [] 0 20000000000000 1 1 false None true 0 0 0 false) ex_ci (ex_led, 0)
+               = Failed Z Z err (ex_led, 0) /\ err = ErrOrigin).
+Proof. repeat split; eexists; (split; [vm_compute; reflexivity|reflexivity]). Qed.
+
+(* a block: three copies of ex_tx adopted one after the other (block_gas), and the full Adopt: the first adopted, its duplicate
+   rejected as known, a third rejected because its dependency (the first, reverted) failed, a fourth for lack of gas room *)
+Example ex_block_gas : exists st rcs,
+  adopt_all Z Z ex_oracle ex_wc ex_env 0 [(ex_tx, ex_ci); (ex_tx, ex_ci); (ex_tx, ex_ci)] (ex_led, 0) [] = (525990, st, rcs) /\
+  map (r_gas_used Z) rcs = [175330; 175330; 175330] /\ 525990 <= e_gas_limit ex_env.
+Proof. eexists _, _. split; [vm_compute; reflexivity|]. vm_compute. split; [reflexivity|discriminate]. Qed.
+
+Definition ex_ai (id : Z) (dep : option Z) := mkAI false false true true 1000 id dep false None.
+Example ex_adopt_full :
+  let fe := mkFE 0 0 in
+  exists st rc fs,
+    adopt_full Z Z ex_oracle ex_wc ex_env fe (mkFS 0 []) ex_tx (ex_ai 11 None) ex_ci (ex_led, 0) = FAdopted Z Z st rc fs /\
+    fs = mkFS 175330 [(11, true)] /\
+    adopt_full Z Z ex_oracle ex_wc ex_env fe fs ex_tx (ex_ai 11 None) ex_ci st = FRejected Z Z AcKnownTx st /\
+    adopt_full Z Z ex_oracle ex_wc ex_env fe fs ex_tx (ex_ai 12 (Some 11)) ex_ci st = FRejected Z Z AcNotAdoptableForever st /\
+    adopt_full Z Z ex_oracle ex_wc ex_env fe fs ex_tx (ex_ai 13 (Some 99)) ex_ci st = FRejected Z Z AcNotAdoptableNow st /\
+    adopt_full Z Z ex_oracle ex_wc ex_env fe (mkFS 9990000 []) ex_tx (ex_ai 14 None) ex_ci st = FRejected Z Z AcGasLimitReached st /\
+    adopt_pre ex_env fe (mkFS 0 []) ex_tx (ex_ai 11 None) = None.
+Proof. cbv zeta. eexists _, _, _. split; [vm_compute; reflexivity|]. vm_compute. repeat split; reflexivity. Qed.
 
 Print Assumptions gas_bounds.
 Print Assumptions tx_atomic.
+Print Assumptions tx_all_applied.
 Print Assumptions not_started_unchanged.
 Print Assumptions adopt_rejected_unchanged.
 Print Assumptions block_gas.
